@@ -312,4 +312,290 @@ theorem C16_fn_cloud_get_version (f : Key → String) (cs : CloudKVVStore Memory
       rw [C16_fn_cloud_do_get_version f cs c.loc h.loc cl lg hlog k]
       cases lookup lg k <;> rfl
 
+/-! ## CloudKVVStore: the write side (`put_with_version`, `put`, `delete`, `put_batch`, `prepare`, `commit`)
+
+The commit log is an ordered map and `prepare` / `commit` expose its order, so the relation is equality of the code's
+log with the image of the model's log, for a key naming `f` that is strictly monotone (`"_WRITER" < "k1" < …` in the
+harness).  The externals of the generic local store are pure functions of the field value: what a method *hands* to the
+local store (`commit`: the exact list passed to `put_batch`) is stated, the local store's own reaction is the memory
+store's theorem (`C16_fn_put_batch`). -/
+
+def toCodeL (f : Key → String) (lg : Tab) : List (String × (Nat × List Nat)) := lg.map (fun e => (f e.1, e.2))
+
+theorem mono_inj (f : Key → String) (hm : ∀ a b, a < b → f a < f b) : ∀ a b, f a = f b → a = b := by
+  intro a b h
+  rcases Nat.lt_trichotomy a b with h1 | h1 | h1
+  · exact absurd (h ▸ hm a b h1) (String.lt_irrefl _)
+  · exact h1
+  · exact absurd (h ▸ hm b a h1) (String.lt_irrefl _)
+
+theorem smapGet_toCodeL (f : Key → String) (hf : ∀ a b, f a = f b → a = b) (lg : Tab) (k : Key) :
+    Rs.smapGet (toCodeL f lg) (f k) = lookup lg k := by
+  induction lg with
+  | nil => rfl
+  | cons e lg ih =>
+    obtain ⟨k0, r0⟩ := e
+    simp only [toCodeL, List.map_cons, Rs.smapGet, lookup]
+    by_cases h : k0 = k
+    · simp [h]
+    · have : ¬ f k0 = f k := fun he => h (hf _ _ he)
+      simp only [h, this, if_false]
+      exact ih
+
+/-- inserting into the code's log is inserting into the model's log (the two orders agree because `f` is monotone) -/
+theorem toCodeL_insert (f : Key → String) (hm : ∀ a b, a < b → f a < f b) (lg : Tab) (k : Key) (r : Rec) :
+    Rs.smapInsert (toCodeL f lg) (f k) r = toCodeL f (KVV.insert lg k r) := by
+  induction lg with
+  | nil => rfl
+  | cons e lg ih =>
+    obtain ⟨k0, r0⟩ := e
+    rcases Nat.lt_trichotomy k k0 with h | h | h
+    · have h1 : f k < f k0 := hm _ _ h
+      have h2 : ¬ f k0 = f k := fun he => absurd (he ▸ h1) (String.lt_irrefl _)
+      simp [toCodeL, Rs.smapInsert, KVV.insert, h, h1, h2]
+    · subst h
+      simp [toCodeL, Rs.smapInsert, KVV.insert, Nat.lt_irrefl]
+    · have h1 : f k0 < f k := hm _ _ h
+      have h2 : ¬ f k0 = f k := fun he => absurd (he ▸ h1) (String.lt_irrefl _)
+      have h3 : ¬ f k < f k0 := String.lt_asymm h1
+      have h4 : ¬ k < k0 := Nat.lt_asymm h
+      have h5 : ¬ k = k0 := Nat.ne_of_gt h
+      have ih' : Rs.smapInsert (List.map (fun e => (f e.1, e.2)) lg) (f k) r
+          = List.map (fun e => (f e.1, e.2)) (KVV.insert lg k r) := ih
+      simp [toCodeL, Rs.smapInsert, KVV.insert, h2, h3, h4, h5, ih']
+
+/-- list-level relation (implies `SimC`) -/
+structure SimL (f : Key → String) (cs : CloudKVVStore MemoryKVVStore) (c : Cloud) : Prop where
+  np : c.poisoned = false
+  loc : Sim f cs.«local» c.loc
+  log : cs.commit_log = c.log.map (toCodeL f)
+
+theorem SimL.toSimC {f : Key → String} (hf : ∀ a b, f a = f b → a = b) {cs : CloudKVVStore MemoryKVVStore} {c : Cloud}
+    (h : SimL f cs c) : SimC f cs c := by
+  refine ⟨h.np, h.loc, ?_⟩
+  rw [h.log]
+  cases c.log with
+  | none => trivial
+  | some lg => exact fun k => smapGet_toCodeL f hf lg k
+
+/-- outcome of a mutating cloud call: the model's `panic` covers the code's `expect`/`assert` panics and the overflow of
+    `v + 1`; a refusal (`Err`) loses the state in the functional translation, so only the class is compared there -/
+def AgreeC (f : Key → String) (r : Rs.M (CloudKVVStore MemoryKVVStore)) (m : Cloud × Res) : Prop :=
+  match r, m.2 with
+  | .ok cs', .ok => SimL f cs' m.1
+  | .error (.err tag), .mismatch => tag = "Error::VersionMismatch"
+  | .error .panic, .panic => True
+  | .error .overflow, .panic => True
+  | _, _ => False
+
+abbrev getV : MemoryKVVStore → String → Rs.M (Option Nat) := fun l key => l.get_version key
+abbrev getR : MemoryKVVStore → String → Rs.M (Option (Nat × List Nat)) := fun l key => l.get key
+
+/-- `put_with_version` inside / outside a transaction: panic without a transaction; a version below the one the
+    transaction already wrote for the key is refused; then the local store's version decides (lower refused, equal
+    needs equal content and logs nothing, higher or new key is logged) -/
+theorem C16_fn_cloud_put_with_version (f : Key → String) (hm : ∀ a b, a < b → f a < f b)
+    (cs : CloudKVVStore MemoryKVVStore) (c : Cloud) (h : SimL f cs c) (k : Key) (v : Nat) (x : Val) :
+    AgreeC f (cs.put_with_version getV getR (f k) v x) (Cloud.putV c k v x) := by
+  have hf := mono_inj f hm
+  unfold CloudKVVStore.put_with_version Cloud.putV
+  simp only [h.np, Bool.false_eq_true, if_false, h.log]
+  cases hg : c.log with
+  | none => simp [AgreeC, Rs.unwrap, Rs.panic, bind, Except.bind]
+  | some lg =>
+    have hins : SimL f { cs with commit_log := some (Rs.smapInsert (toCodeL f lg) (f k) (v, x)) }
+        { c with log := some (insert lg k (v, x)) } :=
+      ⟨h.np, h.loc, by simp [toCodeL_insert f hm]⟩
+    have hsg := smapGet_toCodeL f hf lg k
+    have hgv := C16_fn_get_version f cs.«local» c.loc h.loc k
+    have hgr := C16_fn_get f cs.«local» c.loc h.loc k
+    have hsame : SimL f cs c := h
+    cases hp : lookup lg k with
+    | none =>
+      rw [hp] at hsg
+      simp only [Option.map, Rs.unwrap, Rs.pure_eq, Rs.bind_ok, hsg, Cloud.pendingLower, hp, getV, getR, hgv, hgr]
+      cases hl : lookup c.loc k with
+      | none => simpa [AgreeC, h.np] using hins
+      | some r =>
+        obtain ⟨v0, x0⟩ := r
+        by_cases h1 : v < v0
+        · simp [AgreeC, h1, Rs.fail]
+        · by_cases h2 : v = v0
+          · by_cases h3 : x0 = x
+            · simp [AgreeC, h1, h2, h3]
+              subst h2
+              exact ⟨h.np, h.loc, by rw [h.log, hg]⟩
+            · simp [AgreeC, h2, h3, Rs.fail]
+          · simp only [h1, h2, decide_false, if_false, Bool.false_eq_true, beq_iff_eq, Option.map]
+            simpa [AgreeC, h.np] using hins
+    | some pr =>
+      obtain ⟨pv, px⟩ := pr
+      rw [hp] at hsg
+      simp only [Option.map, Rs.unwrap, Rs.pure_eq, Rs.bind_ok, hsg, Cloud.pendingLower, hp, getV, getR, hgv, hgr]
+      by_cases h0 : v < pv
+      · simp [AgreeC, h0, Rs.fail]
+      · simp only [h0, decide_false, Bool.false_eq_true, if_false]
+        cases hl : lookup c.loc k with
+        | none => simpa [AgreeC, h.np] using hins
+        | some r =>
+          obtain ⟨v0, x0⟩ := r
+          by_cases h1 : v < v0
+          · simp [AgreeC, h1, Rs.fail]
+          · by_cases h2 : v = v0
+            · by_cases h3 : x0 = x
+              · simp [AgreeC, h1, h2, h3]
+                subst h2
+                exact ⟨h.np, h.loc, by rw [h.log, hg]⟩
+              · simp [AgreeC, h2, h3, Rs.fail]
+            · simp only [h1, h2, decide_false, if_false, Bool.false_eq_true, beq_iff_eq, Option.map]
+              simpa [AgreeC, h.np] using hins
+
+/-- `put`: the next version comes from the **local** store (`get_version + 1`, overflow at `u64::MAX`, `0` for a new
+    key), not from the log; then `put_with_version` -/
+theorem C16_fn_cloud_put (f : Key → String) (hm : ∀ a b, a < b → f a < f b)
+    (cs : CloudKVVStore MemoryKVVStore) (c : Cloud) (h : SimL f cs c) (k : Key) (x : Val) :
+    AgreeC f (cs.put getV getR (f k) x) (Cloud.put c k x) := by
+  unfold CloudKVVStore.put Cloud.put
+  simp only [getV, C16_fn_get_version f cs.«local» c.loc h.loc k, Rs.bind_ok]
+  cases hl : lookup c.loc k with
+  | none =>
+    simp only [Option.map, nextVer, Rs.pure_eq, Rs.bind_ok, Option.getD]
+    exact C16_fn_cloud_put_with_version f hm cs c h k 0 x
+  | some r =>
+    obtain ⟨v0, x0⟩ := r
+    simp only [Option.map, nextVer, Rs.uadd, U64MAX, Rs.U64_MAX]
+    by_cases hv : v0 < 18446744073709551615
+    · have hv' : v0 + 1 ≤ 18446744073709551615 := hv
+      simp only [hv, hv', if_true, Rs.pure_eq, Rs.bind_ok, Option.getD]
+      exact C16_fn_cloud_put_with_version f hm cs c h k (v0 + 1) x
+    · have hv' : ¬ v0 + 1 ≤ 18446744073709551615 := by omega
+      simp [hv, hv', AgreeC, Rs.overflow, bind, Except.bind]
+
+/-- `delete` = `put(key, [])` -/
+theorem C16_fn_cloud_delete (f : Key → String) (hm : ∀ a b, a < b → f a < f b)
+    (cs : CloudKVVStore MemoryKVVStore) (c : Cloud) (h : SimL f cs c) (k : Key) :
+    AgreeC f (cs.delete getV getR (f k)) (Cloud.put c k []) := by
+  unfold CloudKVVStore.delete
+  exact C16_fn_cloud_put f hm cs c h k []
+
+/-- `put_batch` = the entries as `put_with_version` calls in order, stopping at the first refusal (the entries logged
+    before a refusal stay logged in the real store; the functional translation has no state on `Err`, so for a refused
+    batch only the outcome class is tied — the residual log is covered by the harness) -/
+theorem C16_fn_cloud_put_batch (f : Key → String) (hm : ∀ a b, a < b → f a < f b) (es : List (Key × Rec)) :
+    ∀ (cs : CloudKVVStore MemoryKVVStore) (c : Cloud), SimL f cs c →
+      AgreeC f (cs.put_batch getV getR (es.map (fun e => (f e.1, e.2)))) (Cloud.batch c es) := by
+  induction es with
+  | nil =>
+    intro cs c h
+    simpa [CloudKVVStore.put_batch, Cloud.batch, AgreeC] using h
+  | cons e es ih =>
+    intro cs c h
+    have hstep := C16_fn_cloud_put_with_version f hm cs c h e.1 e.2.1 e.2.2
+    unfold CloudKVVStore.put_batch at ih ⊢
+    simp only [List.map_cons, List.foldlM_cons, Cloud.batch, bind_assoc] at ih ⊢
+    cases hr : cs.put_with_version getV getR (f e.1) e.2.1 e.2.2 with
+    | error err =>
+      rw [hr] at hstep
+      cases hm2 : Cloud.putV c e.1 e.2.1 e.2.2 with
+      | mk c' res =>
+        rw [hm2] at hstep
+        cases res <;> cases err <;> simp_all [AgreeC, bind, Except.bind]
+    | ok cs' =>
+      rw [hr] at hstep
+      cases hm2 : Cloud.putV c e.1 e.2.1 e.2.2 with
+      | mk c' res =>
+        rw [hm2] at hstep
+        cases res with
+        | ok =>
+          simp only [AgreeC] at hstep
+          simp only [Rs.bind_ok, Rs.pure_eq]
+          exact ih cs' c' hstep
+        | mismatch => simp [AgreeC] at hstep
+        | panic => simp [AgreeC] at hstep
+
+theorem foldl_push {α : Type} (l acc : List α) :
+    List.foldl (fun kvvs x => kvvs ++ [x]) acc l = acc ++ l := by
+  induction l generalizing acc with
+  | nil => simp
+  | cons x l ih => simp [List.foldl_cons, ih, List.append_assoc]
+
+/-- `commit`: panics outside a transaction; else the log is taken (the transaction ends whatever the local store
+    answers) and **exactly the logged entries, in key order**, are handed to the local store's `put_batch`, whose
+    result is the result — for every local store -/
+theorem C16_fn_cloud_commit (f : Key → String) (cs : CloudKVVStore MemoryKVVStore) (c : Cloud) (h : SimL f cs c)
+    (ext : MemoryKVVStore → List (String × (Nat × List Nat)) → Rs.M Unit) :
+    cs.commit ext = (match c.log with
+      | none => .error .panic
+      | some lg => (ext cs.«local» (toCodeL f lg)) >>= fun _ => pure { cs with commit_log := none }) := by
+  unfold CloudKVVStore.commit
+  rw [h.log]
+  cases c.log with
+  | none => simp [Rs.unwrap, Rs.panic, bind, Except.bind]
+  | some lg =>
+    simp only [Option.map, Rs.unwrap, Rs.pure_eq, Rs.bind_ok]
+    have : List.foldl (fun (kvvs : List (String × (Nat × List Nat))) (x : String × (Nat × List Nat)) =>
+        match x with | (key, (version, vv)) => kvvs ++ [(key, (version, vv))]) [] (toCodeL f lg) = toCodeL f lg := by
+      have h2 := foldl_push (toCodeL f lg) []
+      simpa using h2
+    rw [this]
+
+/-- with the memory store as local store: `commit` is accepted exactly when the model's `Mem.batch` of the log is, and
+    then the local store is the model's local store after the batch and the log is gone (= `Cloud.commit`) -/
+theorem C16_fn_cloud_commit_applied (f : Key → String) (hm : ∀ a b, a < b → f a < f b)
+    (cs : CloudKVVStore MemoryKVVStore) (c : Cloud) (h : SimL f cs c) (lg : Tab) (hlg : c.log = some lg) :
+    match cs.«local».put_batch (toCodeL f lg), (Cloud.commit c).2 with
+    | .ok l', .ok => SimL f { «local» := l', commit_log := none } (Cloud.commit c).1
+    | .error (.err tag), .mismatch => tag = "Error::VersionMismatch"
+    | _, _ => False := by
+  have hb : Agree f (cs.«local».put_batch (toCodeL f lg)) (Mem.batch c.loc lg) :=
+    C16_fn_put_batch f (mono_inj f hm) cs.«local» c.loc h.loc lg
+  unfold Cloud.commit
+  simp only [h.np, Bool.false_eq_true, if_false, hlg]
+  unfold Agree at hb
+  cases hres : Mem.batch c.loc lg with
+  | mk t' res =>
+    rw [hres] at hb
+    cases hr : cs.«local».put_batch (toCodeL f lg) with
+    | error err =>
+      rw [hr] at hb
+      cases res <;> cases err <;> simp_all
+      · unfold Mem.batch at hres; split at hres <;> simp at hres
+    | ok l' =>
+      rw [hr] at hb
+      cases res <;> simp_all
+      exact ⟨rfl, hb, rfl⟩
+
+/-- `prepare`: panics outside a transaction; a log holding only the last-writer record is cleared and nothing is
+    reported (the `assert_eq!` on its key panics for any other single entry); otherwise exactly the log, in key order,
+    is reported and the store is unchanged -/
+theorem C16_fn_cloud_prepare (f : Key → String) (hf : ∀ a b, f a = f b → a = b) (hw : f 0 = "_WRITER")
+    (cs : CloudKVVStore MemoryKVVStore) (c : Cloud) (h : SimL f cs c) :
+    match cs.prepare (Mutations := List (String × (Nat × List Nat))) [] (fun v => v), Cloud.prepare c with
+    | .ok (cs', m), (c', some rep) => SimL f cs' c' ∧ m = toCodeL f rep
+    | .error .panic, (_, none) => True
+    | _, _ => False := by
+  unfold CloudKVVStore.prepare Cloud.prepare
+  simp only [h.np, Bool.false_eq_true, if_false, h.log]
+  cases hg : c.log with
+  | none => simp [Rs.unwrap, Rs.panic, bind, Except.bind]
+  | some lg =>
+    have hmap : List.map (fun (x : String × (Nat × List Nat)) => match x with | (k, (v, vv)) => (k, (v, vv))) (toCodeL f lg)
+        = toCodeL f lg := by
+      have : (fun (x : String × (Nat × List Nat)) => match x with | (k, (v, vv)) => (k, (v, vv))) = id := by
+        funext ⟨a, b, c⟩; rfl
+      rw [this, List.map_id]
+    simp only [Option.map, Rs.unwrap, Rs.pure_eq, Rs.bind_ok, hmap]
+    match lg with
+    | [] => simp [toCodeL]; exact ⟨h.np, h.loc, h.log⟩
+    | [(k, r)] =>
+      by_cases hk : k = 0
+      · subst hk
+        simp [toCodeL, Rs.index, Rs.assert, hw, bind, Except.bind, pure, Except.pure]
+        exact ⟨rfl, h.loc, rfl⟩
+      · have : ¬ f k = "_WRITER" := fun he => hk (hf _ _ (he.trans hw.symm))
+        simp [toCodeL, Rs.index, Rs.assert, this, hk, Rs.panic, bind, Except.bind, pure, Except.pure]
+    | e1 :: e2 :: rest =>
+      simp [toCodeL]
+      exact ⟨h.np, h.loc, h.log⟩
+
 end VlsModel.Props.C16Fn
